@@ -148,6 +148,7 @@ func Build(spec Spec) *Built {
 		ftypes := b.NewFile(d, tfn)
 		fapi := b.NewFile(d, "api.go")
 		fuse := b.NewFile(d, "uses.go")
+		var fmeth *File
 		var fexcl, fdtest, fdext *File
 		if spec.Excluded {
 			fexcl = b.NewFile(d, "gen_legacy_types.go")
@@ -272,6 +273,21 @@ func Build(spec Spec) *Built {
 			n, fn = b.MethodNode(t, "Val", false, !all && r.Chance(1, 3), vpo, fapi, nil)
 			fapi.Decls = append(fapi.Decls, n)
 			env.Val = fn
+			// an ordinary method in a file of its own: the receiver is the file's only mention of the type
+			// (the book's mock / spy pattern: a @testonly type implementing a production interface)
+			if exportedName(t.Name) {
+				if fmeth == nil {
+					fmeth = b.NewFile(d, "methods.go")
+				}
+				mn := &Node{Fn: &Func{Pkg: d, Name: "Describe", Recv: t, File: fmeth}, Pin: fmeth.Name}
+				mn.Doc = []string{" Describe is an ordinary method."}
+				ru := refT(t, SubRecv)
+				ru.Feature = "receiver-is-only-mention"
+				mn.Pre = []*Line{b.tl("func (r *%T) Describe() string {", ru)}
+				mn.Kids = []*Node{b.stmt("return \"\"")}
+				mn.Post = []*Line{b.line("}")}
+				fmeth.Decls = append(fmeth.Decls, mn)
+			}
 			if spec.Hostile {
 				an := "Al" + strings.ToUpper(t.Name[:1]) + t.Name[1:]
 				fapi.Decls = append(fapi.Decls, b.tstmt("type "+an+" = %T", free(refT(t, SubOther), TONL)))
